@@ -247,4 +247,24 @@ ScaleFrame == [][\A s \in {2, 3} : ScaleSystem(s) =>
                    \A j \in 1..N : /\ (surf[j].R # INF => surf'[j].R = s * surf[j].R)
                                    /\ (j < N /\ surf[j].z # -INF => ThicknessOf(surf', j) = s * ThicknessOf(surf, j))
                                    /\ surf'[j].k = surf[j].k /\ surf'[j].post = surf[j].post]_vars
+---------------------------------------------------------------------------
+(* Refinement of spec/LensStructure.tla (the flag structure, proved inductive  *)
+(* for lenses of every size by Apalache): every step of this module is a step  *)
+(* of LensStructure on the projection below, or leaves the projection alone.   *)
+LS == INSTANCE LensStructure WITH n <- 0, stops <- {}, w <- 0, prim <- {}     \* (its step predicates take explicit values)
+StopSet(sf) == {j \in 1..Len(sf) : sf[j].stop}
+PrimSet(ws) == {j \in 1..Len(ws) : ws[j].primary}
+StructStep ==
+  LET n0 == Len(surf)   n1 == Len(surf')
+      S0 == StopSet(surf)   S1 == StopSet(surf')
+      w0 == Len(wl)   w1 == Len(wl')
+      P0 == PrimSet(wl)   P1 == PrimSet(wl')
+  IN \/ <<n1, S1, w1, P1>> = <<n0, S0, w0, P0>>
+     \/ /\ <<w1, P1>> = <<w0, P0>>
+        /\ \/ \E st \in BOOLEAN : LS!AAppend(st, n0, S0, n1, S1)
+           \/ \E st \in BOOLEAN, i \in 1..n0 : LS!AInsert(i, st, n0, S0, n1, S1)
+           \/ \E i \in 1..n0 : LS!ARemove(i, n0, S0, n1, S1)
+     \/ /\ <<n1, S1>> = <<n0, S0>>
+        /\ \E p \in BOOLEAN : LS!AAddWl(p, w0, P0, w1, P1)
+StructureRefined == [][StructStep]_vars
 =============================================================================
